@@ -256,6 +256,10 @@ type FuncDef struct {
 	NoParens bool // "func f {" for zero parameters
 }
 
+// Raw is a line of target text emitted verbatim by the printer (only used when programs are
+// rendered as Go source for the cross-validation of the reference interpreter).
+type Raw struct{ Text string }
+
 // Comment is a free-standing line comment (used by generators to vary file hashes).
 type Comment struct{ Text string }
 
